@@ -705,6 +705,18 @@ func (ww *WW) StepReclaim() {
 	if len(mintsWithPending) > 1 || len(pendKeysets) > 1 {
 		return
 	}
+	// ... and the mint resolves the pending melt quotes behind one state check in Go map order (one
+	// Lightning look-up each, §8a): the wallet's reconciliation request may name proofs of at most one
+	// melt quote (found by the determinism self-test of round 2: 1 differing log in 144)
+	meltQuotes := map[string]bool{}
+	for _, p := range n.Inner.GetPendingProofs() {
+		if p.MeltQuoteId != "" {
+			meltQuotes[p.MeltQuoteId] = true
+		}
+	}
+	if len(meltQuotes) > 1 {
+		return
+	}
 	remove := ww.T.Chance("reclaim.remove", 1, 2)
 	ww.op(fmt.Sprintf("w.reclaim remove=%v", remove))
 	plans := ww.takePlans()
